@@ -1,8 +1,11 @@
 #!/bin/bash
-# run_all_seeded.sh [tier]: apply every kept seeded change to /repo in turn, run the check of the
-# property it breaks, undo it. Prints one line per change. /repo must be clean.
+# run_all_seeded.sh [tier]: run every kept seeded change through the check of the property it
+# breaks, each applied to one shared scratch copy of /repo (never to /repo itself, see
+# try_mutation.sh). Prints one line per change.
 TIER="${1:-quick}"
-cd /verif || exit 2
+cd "$(dirname "$0")/.." || exit 2
+export SCRATCH="$(mktemp -d /var/tmp/candid-mut.XXXXXX)"
+trap 'rm -rf "$SCRATCH"' EXIT INT TERM HUP
 for d in seeded/*/; do
   id=$(basename "$d"); prop=${id%%-*}
   patch="$d/patch.diff"; [ -f "$d/patch_rebased.diff" ] && patch="$d/patch_rebased.diff"
